@@ -97,6 +97,12 @@ fn name(id: u64) -> String {
     }
 }
 fn name_id(s: &str) -> u64 {
+    // the four malformed strings the generators use (ids 900..=903)
+    for n in INVALID {
+        if s == name(n) {
+            return n;
+        }
+    }
     if let Some(k) = s.strip_prefix("acct").and_then(|k| k.parse::<u64>().ok()) {
         k
     } else {
@@ -450,10 +456,7 @@ impl World {
         o.n = self.qx(json!({"num_tokens": {}}))["count"].as_u64().unwrap();
         // `Minter {}` and `Ownership {}` must agree with the typed item
         let mq = self.qx(json!({"minter": {}}))["minter"].as_str().map(name_id);
-        let oq = self.qx(json!({"ownership": {}}));
         assert_eq!(mq, o.owner, "Minter query differs from the ownership item");
-        assert_eq!(oq["owner"].as_str().map(name_id), o.owner, "Ownership query differs from the ownership item");
-        assert_eq!(oq["pending_owner"].as_str().map(name_id), o.pending, "Ownership query differs from the ownership item");
         let mut ids: Vec<String> = vec![];
         let mut after: Option<String> = None;
         loop {
@@ -484,4 +487,1226 @@ impl World {
     }
 }
 
-//@@PART2@@
+// ------------------------------------------------------------------------------------------------ message surface (run time)
+
+fn exec_schema(kind: &str) -> Value {
+    use cosmwasm_schema::schema_for;
+    let r = match kind {
+        "base" => schema_for!(sg721::ExecuteMsg<cw721_base::Extension, Empty>),
+        "onchain" => schema_for!(sg721::ExecuteMsg<sg_metadata::Metadata, Empty>),
+        "nt" => schema_for!(sg721_nt::msg::ExecuteMsg<cw721_base::Extension>),
+        _ => schema_for!(sg721_updatable::msg::ExecuteMsg<cw721_base::Extension, Empty>),
+    };
+    serde_json::to_value(&r).expect("schema to json")
+}
+
+/// (variant name, schema of its payload; None for a unit variant serialised as a bare string)
+fn schema_variants(root: &Value) -> Vec<(String, Option<Value>)> {
+    let mut out = vec![];
+    let mut alts: Vec<Value> = vec![];
+    for k in ["oneOf", "anyOf"] {
+        if let Some(a) = root[k].as_array() {
+            alts.extend(a.iter().cloned());
+        }
+    }
+    if alts.is_empty() {
+        alts.push(root.clone());
+    }
+    for alt in alts {
+        if let Some(en) = alt["enum"].as_array() {
+            for e in en {
+                if let Some(s) = e.as_str() {
+                    out.push((s.to_string(), None));
+                }
+            }
+        } else if let Some(req) = alt["required"].as_array() {
+            if let Some(name) = req.first().and_then(|x| x.as_str()) {
+                out.push((name.to_string(), Some(alt["properties"][name].clone())));
+            }
+        }
+    }
+    out.sort_by(|a, b| a.0.cmp(&b.0));
+    out.dedup_by(|a, b| a.0 == b.0);
+    out
+}
+
+/// protocol op(s) of a schema variant
+fn known_variant(name: &str) -> Option<&'static [&'static str]> {
+    Some(match name {
+        "transfer_nft" => &["transfer"],
+        "send_nft" => &["send"],
+        "approve" => &["approve"],
+        "revoke" => &["revoke"],
+        "approve_all" => &["approve_all"],
+        "revoke_all" => &["revoke_all"],
+        "mint" => &["mint"],
+        "burn" => &["burn"],
+        "extension" => &["extension"],
+        "update_collection_info" => &["uci"],
+        "update_start_trading_time" => &["ustt"],
+        "freeze_collection_info" => &["freeze"],
+        "update_ownership" => &["own_transfer", "own_accept", "own_renounce"],
+        "freeze_token_metadata" => &["freeze_meta"],
+        "update_token_metadata" => &["utm"],
+        "enable_updatable" => &["enable"],
+        _ => return None,
+    })
+}
+const ALL_OPS: [&str; 18] = [
+    "transfer", "send", "approve", "revoke", "approve_all", "revoke_all", "mint", "burn", "extension", "uci", "ustt", "freeze", "own_transfer", "own_accept",
+    "own_renounce", "freeze_meta", "utm", "enable",
+];
+
+#[derive(Clone, Default)]
+struct Surface {
+    /// per kind: protocol ops whose variant exists in that kind's `ExecuteMsg` schema
+    has: BTreeMap<String, BTreeSet<String>>,
+    /// per kind: variants the protocol has no name for
+    unknown: BTreeMap<String, Vec<String>>,
+    uci_field: BTreeMap<String, String>,
+    freeze_unit: BTreeMap<String, bool>,
+}
+impl Surface {
+    fn load() -> Surface {
+        let mut s = Surface::default();
+        for kind in KINDS {
+            let root = exec_schema(kind);
+            let vars = schema_variants(&root);
+            let mut has = BTreeSet::new();
+            let mut unk = vec![];
+            for (n, _) in &vars {
+                match known_variant(n) {
+                    Some(ops) => has.extend(ops.iter().map(|x| x.to_string())),
+                    None => unk.push(n.clone()),
+                }
+            }
+            s.has.insert(kind.into(), has);
+            s.unknown.insert(kind.into(), unk);
+            let uf = vars
+                .iter()
+                .find(|(n, _)| n == "update_collection_info")
+                .and_then(|(_, p)| p.as_ref())
+                .and_then(|p| p["required"].as_array().and_then(|r| r.first()).and_then(|x| x.as_str()).map(String::from))
+                .unwrap_or_else(|| "collection_info".into());
+            s.uci_field.insert(kind.into(), uf);
+            s.freeze_unit.insert(kind.into(), vars.iter().any(|(n, p)| n == "freeze_collection_info" && p.is_none()));
+        }
+        s
+    }
+}
+
+fn opt_s(line: &str, key: &str) -> Option<String> {
+    let v = kv(line, key)?;
+    if v == "-" {
+        None
+    } else {
+        Some(v.to_string())
+    }
+}
+fn funds_of(line: &str) -> Vec<Coin> {
+    coins_of(&kv_pairs(line, "funds").unwrap_or_default())
+}
+fn roy_json(line: &str) -> Value {
+    match opt_s(line, "roy") {
+        None => Value::Null,
+        Some(v) => {
+            let (p, s) = v.split_once(':').unwrap();
+            json!({"payment_address": name(p.parse().unwrap()), "share": share_str(s.parse().unwrap())})
+        }
+    }
+}
+fn ec_json(line: &str) -> Value {
+    match kv(line, "ec").unwrap() {
+        "-" => Value::Null,
+        "1" => json!(true),
+        _ => json!(false),
+    }
+}
+fn desc_of(line: &str) -> Option<String> {
+    opt_s(line, "desc").map(|v| {
+        let (x, y) = v.split_once(':').unwrap();
+        desc_str(x.parse().unwrap(), y.parse().unwrap())
+    })
+}
+
+/// JSON of the message for protocol line `line`, as a client of the collection kind `cur_kind` would encode it
+fn build_msg(op: &str, line: &str, cur_kind: &str, sf: &Surface) -> Option<Value> {
+    let id = || kv_u64(line, "id").unwrap().to_string();
+    let adr = |key: &str| name(kv_u64(line, key).unwrap());
+    let msg: Value = match op {
+        "transfer" => json!({"transfer_nft": {"recipient": adr("to"), "token_id": id()}}),
+        "send" => {
+            let fail = kv_u64(line, "payload").unwrap() == 0;
+            json!({"send_nft": {"contract": adr("to"), "token_id": id(), "msg": Binary::from(if fail { &b"fail"[..] } else { &b"fine"[..] })}})
+        }
+        "approve" => json!({"approve": {"spender": adr("sp"), "token_id": id(), "expires": exp_json(kv(line, "exp").unwrap())}}),
+        "revoke" => json!({"revoke": {"spender": adr("sp"), "token_id": id()}}),
+        "approve_all" => json!({"approve_all": {"operator": adr("op"), "expires": exp_json(kv(line, "exp").unwrap())}}),
+        "revoke_all" => json!({"revoke_all": {"operator": adr("op")}}),
+        "mint" => {
+            let ext = kv_u64(line, "ext").unwrap();
+            let extension = if cur_kind == "onchain" {
+                if ext > 0 {
+                    json!({"name": format!("n{ext}")})
+                } else {
+                    json!({})
+                }
+            } else {
+                Value::Null
+            };
+            json!({"mint": {"token_id": id(), "owner": adr("owner"), "token_uri": kv_opt_u64(line, "uri").unwrap().map(uri_str), "extension": extension}})
+        }
+        "burn" => json!({"burn": {"token_id": id()}}),
+        "extension" => json!({"extension": {"msg": {}}}),
+        "uci" => {
+            let ci = json!({
+                "description": desc_of(line),
+                "image": kv_opt_u64(line, "image").unwrap().map(url_str),
+                "external_link": kv_opt_u64(line, "ext").unwrap().map(url_str),
+                "explicit_content": ec_json(line),
+                "royalty_info": roy_json(line),
+                "creator": kv_opt_u64(line, "creator").unwrap().map(name),
+            });
+            let mut inner = Map::new();
+            inner.insert(sf.uci_field.get(cur_kind).cloned().unwrap_or_else(|| "collection_info".into()), ci);
+            json!({"update_collection_info": Value::Object(inner)})
+        }
+        "ustt" => json!({"update_start_trading_time": kv_opt_u64(line, "t").unwrap().map(|t| t.to_string())}),
+        "freeze" => {
+            if sf.freeze_unit.get(cur_kind).copied().unwrap_or(false) {
+                json!("freeze_collection_info")
+            } else {
+                json!({"freeze_collection_info": {}})
+            }
+        }
+        "own_transfer" => json!({"update_ownership": {"transfer_ownership": {"new_owner": adr("to"), "expiry": exp_json(kv(line, "exp").unwrap())}}}),
+        "own_accept" => json!({"update_ownership": "accept_ownership"}),
+        "own_renounce" => json!({"update_ownership": "renounce_ownership"}),
+        "freeze_meta" => json!({"freeze_token_metadata": {}}),
+        "utm" => json!({"update_token_metadata": {"token_id": id(), "token_uri": kv_opt_u64(line, "uri").unwrap().map(uri_str)}}),
+        "enable" => json!({"enable_updatable": {}}),
+        "raw" => {
+            let mut m = Map::new();
+            m.insert(kv(line, "v").unwrap_or("?").to_string(), json!({}));
+            Value::Object(m)
+        }
+        _ => return None,
+    };
+    Some(msg)
+}
+
+/// witness fields that depend on the line alone
+fn line_witness(op: &str, line: &str) -> String {
+    match op {
+        "send" => {
+            let to = kv_u64(line, "to").unwrap();
+            let fail = kv_u64(line, "payload").unwrap() == 0;
+            format!(" recv={}", (World::is_stub(to) && !fail) as u8)
+        }
+        "uci" | "inst" => {
+            let iv = kv_opt_u64(line, "image").unwrap().map(url_valid).unwrap_or(true);
+            let ev = kv_opt_u64(line, "ext").unwrap().map(url_valid).unwrap_or(true);
+            format!(" iv={} ev={}", iv as u8, ev as u8)
+        }
+        _ => String::new(),
+    }
+}
+
+// ------------------------------------------------------------------------------------------------ Sut
+
+struct S {
+    w: World,
+    sf: Surface,
+    hdr: String,
+    accts: Vec<u64>,
+    log: Vec<String>,
+    cur: Option<Obs>,
+    panics: u64,
+    /// classes of the line just executed (for the coverage floor)
+    marks: Vec<String>,
+}
+
+impl S {
+    fn new(sf: Surface) -> S {
+        S { w: World::new(1, 1), sf, hdr: String::new(), accts: vec![], log: vec![], cur: None, panics: 0, marks: vec![] }
+    }
+    fn cur_kind(&self) -> String {
+        self.cur.as_ref().map(|o| o.kind.clone()).unwrap_or("base".into())
+    }
+    fn obs(&self) -> String {
+        let c = self.cur.as_ref().map(|o| o.render()).unwrap_or("C=-".into());
+        let bal: Vec<String> = self.accts.iter().map(|a| format!("{a}:{}:{}", self.w.balance(*a, 0), self.w.balance(*a, 1))).collect();
+        format!("B={}/{} {c} bal={} sup={}:{}", self.w.blk.0, self.w.blk.1, bal.join(","), self.w.supply(0), self.w.supply(1))
+    }
+    fn reset(&mut self, header: &str) {
+        let h = kv_u64(header, "h").unwrap_or(1);
+        let t = kv_u64(header, "t").unwrap_or(1);
+        self.w = World::new(h, t);
+        self.accts = kv_list(header, "accts").unwrap_or_default().into_iter().map(|x| x as u64).collect();
+        self.cur = None;
+    }
+
+    /// execute one op line on the real contracts: (tag on success, accepted)
+    fn run_line(&mut self, line: &str) -> Option<(&'static str, bool)> {
+        let op = line.split_whitespace().next().unwrap_or("");
+        match op {
+            "block" => {
+                self.w.set_block(kv_u64(line, "h")?, kv_u64(line, "t")?);
+                Some(("blk", true))
+            }
+            "fund" => {
+                let (a_, d, amt) = (kv_u64(line, "a")?, kv_u64(line, "d")?, kv_u128(line, "amt")?);
+                if amt > 0 {
+                    self.w.app.sudo(SudoMsg::Bank(BankSudo::Mint { to_address: name(a_), amount: vec![coin_of(d, amt)] })).expect("bank mint");
+                }
+                Some(("fund", true))
+            }
+            "inst" => {
+                if self.w.coll.is_some() {
+                    return Some(("ok", false)); // one collection per case
+                }
+                let mut ci = json!({
+                    "creator": name(kv_u64(line, "creator")?),
+                    "description": desc_of(line).unwrap_or_default(),
+                    "image": url_str(kv_u64(line, "image")?),
+                    "external_link": kv_opt_u64(line, "ext")?.map(url_str),
+                    "explicit_content": ec_json(line),
+                    "royalty_info": roy_json(line),
+                });
+                ci["start_trading_time"] = match kv_opt_u64(line, "stt")? {
+                    Some(t) => json!(t.to_string()),
+                    None => Value::Null,
+                };
+                let msg = json!({"name": format!("Collection{}", kv_u64(line, "nm")?), "symbol": format!("SYM{}", kv_u64(line, "sym")?),
+                    "minter": name(kv_u64(line, "minter")?), "collection_info": ci});
+                let kind = kv(line, "kind")?.to_string();
+                let ok = self.w.instantiate(&kind, kv_u64(line, "s")?, &msg, &funds_of(line));
+                if ok {
+                    assert_eq!(self.w.coll.as_ref().map(|c| name_id(c.as_str())), Some(COLL), "address allocation differs from the prediction");
+                }
+                Some(("ok", ok))
+            }
+            "migrate_upd" | "migrate_self" => {
+                let Some(c) = self.w.coll.clone() else { return Some(("ok", false)) };
+                let to = if op == "migrate_upd" { "updatable".to_string() } else { self.cur_kind() };
+                let code = self.w.codes.get(to.as_str()).copied()?;
+                Some(("ok", self.w.app.migrate_contract(a(ADMIN), c, &Empty {}, code).is_ok()))
+            }
+            "setver" => {
+                let v = kv(line, "v")?;
+                let Some(c) = self.w.coll.clone() else { return Some(("env", false)) };
+                let (nm, _) = self.w.cw2().expect("cw2 record");
+                let mut st = self.w.app.contract_storage_mut(&c);
+                cw2::set_contract_version(&mut *st, nm, v).expect("set cw2 version");
+                Some(("env", true))
+            }
+            "setlegacy" => {
+                let v = kv_opt_u64(line, "a")?;
+                let Some(c) = self.w.coll.clone() else { return Some(("env", false)) };
+                let mut st = self.w.app.contract_storage_mut(&c);
+                let it = Item::<Addr>::new("minter");
+                match v {
+                    Some(x) => it.save(&mut *st, &ad(x)).expect("save legacy minter"),
+                    None => it.remove(&mut *st),
+                }
+                Some(("env", true))
+            }
+            _ => {
+                let sender = kv_u64(line, "s")?;
+                let msg = build_msg(op, line, &self.cur_kind(), &self.sf)?;
+                let Some(coll) = self.w.coll.clone() else { return Some(("ok", false)) };
+                Some(("ok", self.w.send(sender, &coll, &msg, &funds_of(line))))
+            }
+        }
+    }
+
+    fn rebuild(&mut self) {
+        let log = std::mem::take(&mut self.log);
+        let hdr = self.hdr.clone();
+        self.reset(&hdr);
+        for l in &log {
+            let _ = catch(|| self.run_line(l));
+            self.cur = self.w.observe();
+        }
+        self.log = log;
+    }
+
+    fn query_line(&self, op: &str, line: &str) -> Option<String> {
+        if self.w.coll.is_none() {
+            return Some("q err".into());
+        }
+        let ie = || kv_bool(line, "ie");
+        let tid = || kv_u64(line, "id").map(|i| i.to_string());
+        let access = |v: &Value| format!("{}/{}", name_id(v["owner"].as_str().unwrap()), render_approvals(&approvals_of(&v["approvals"])));
+        let nft = |v: &Value| {
+            let ext: u64 = v["extension"]["name"].as_str().and_then(|s| s.strip_prefix('n')).and_then(|n| n.parse().ok()).unwrap_or(0);
+            format!("{}/{}", fmt_opt(&v["token_uri"].as_str().map(uri_back)), ext)
+        };
+        let ids = |v: &Value| fmt_list(&v["tokens"].as_array().unwrap().iter().map(|x| x.as_str().unwrap().parse::<u64>().unwrap_or(999_999)).collect::<Vec<_>>());
+        let wrap = |r: Result<Value, String>, f: &dyn Fn(&Value) -> String| match r {
+            Ok(v) => format!("q ok {}", f(&v)),
+            Err(_) => "q err".to_string(),
+        };
+        Some(match op {
+            "q_owner_of" => wrap(self.w.q(&json!({"owner_of": {"token_id": tid()?, "include_expired": ie()?}})), &access),
+            "q_approval" => wrap(self.w.q(&json!({"approval": {"token_id": tid()?, "spender": name(kv_u64(line, "sp")?), "include_expired": ie()?}})), &|v| {
+                format!("{}@{}", name_id(v["approval"]["spender"].as_str().unwrap()), exp_of_json(&v["approval"]["expires"]))
+            }),
+            "q_approvals" => wrap(self.w.q(&json!({"approvals": {"token_id": tid()?, "include_expired": ie()?}})), &|v| render_approvals(&approvals_of(&v["approvals"]))),
+            "q_operators" => wrap(
+                self.w.q(&json!({"all_operators": {"owner": name(kv_u64(line, "owner")?), "include_expired": ie()?,
+                    "start_after": kv_opt_u64(line, "after")?.map(name), "limit": kv_opt_u64(line, "limit")?}})),
+                &|v| dash(v["operators"].as_array().unwrap().iter().map(|x| format!("{}@{}", name_id(x["spender"].as_str().unwrap()), exp_of_json(&x["expires"]))).collect(), ","),
+            ),
+            "q_nft_info" => wrap(self.w.q(&json!({"nft_info": {"token_id": tid()?}})), &nft),
+            "q_all_nft_info" => wrap(self.w.q(&json!({"all_nft_info": {"token_id": tid()?, "include_expired": ie()?}})), &|v| format!("{}/{}", access(&v["access"]), nft(&v["info"]))),
+            "q_tokens" => wrap(
+                self.w.q(&json!({"tokens": {"owner": name(kv_u64(line, "owner")?), "start_after": kv_opt_u64(line, "after")?.map(|x| x.to_string()), "limit": kv_opt_u64(line, "limit")?}})),
+                &ids,
+            ),
+            "q_all_tokens" => wrap(self.w.q(&json!({"all_tokens": {"start_after": kv_opt_u64(line, "after")?.map(|x| x.to_string()), "limit": kv_opt_u64(line, "limit")?}})), &ids),
+            "q_ownership" => wrap(self.w.q(&json!({"ownership": {}})), &|v| {
+                format!(
+                    "{}/{}/{}",
+                    fmt_opt(&v["owner"].as_str().map(name_id)),
+                    fmt_opt(&v["pending_owner"].as_str().map(name_id)),
+                    if v["pending_expiry"].is_null() { "-".to_string() } else { exp_of_json(&v["pending_expiry"]) }
+                )
+            }),
+            "q_upd" => {
+                let e = self.w.q(&json!({"enable_updatable": {}}));
+                let f = self.w.q(&json!({"freeze_token_metadata": {}}));
+                let fee = self.w.q(&json!({"enable_updatable_fee": {}}));
+                match (e, f, fee) {
+                    (Ok(e), Ok(f), Ok(fee)) => format!("q ok e={} f={} fee={}", e["enabled"].as_bool()? as u8, f["frozen"].as_bool()? as u8, fee.as_str()?),
+                    _ => "q err".into(),
+                }
+            }
+            "q_payout" => {
+                let c = self.w.coll.clone()?;
+                let ci: sg721_base::msg::CollectionInfoResponse = self.w.app.wrap().query_wasm_smart(c.to_string(), &json!({"collection_info": {}})).ok()?;
+                let mut res: Response = Response::new();
+                let r = ci.royalty_payout(c, Uint128::new(kv_u128(line, "pay")?), Uint128::new(kv_u128(line, "fee")?), kv_opt_u128(line, "fin")?.map(Uint128::new), &mut res);
+                match r {
+                    Ok(amt) => format!("q ok {} {}", amt.u128(), dash(res.messages.iter().map(|m| {
+                        let s = render_msg(&m.msg);
+                        // `render_msg` names the recipient with `world::addr_id`; accounts are `acct{n}` there too
+                        s
+                    }).collect(), ",")),
+                    Err(_) => "q err".into(),
+                }
+            }
+            _ => return None,
+        })
+    }
+}
+
+impl Sut for S {
+    fn begin(&mut self, header: &str) -> (String, String) {
+        self.hdr = header.to_string();
+        self.reset(header);
+        self.log.clear();
+        self.marks.clear();
+        (header.to_string(), "case".to_string())
+    }
+
+    fn exec(&mut self, line: &str) -> (String, String) {
+        self.marks.clear();
+        let op = line.split_whitespace().next().unwrap_or("").to_string();
+        if op.starts_with("q_") {
+            let out = catch(|| self.query_line(&op, line)).ok().flatten().unwrap_or("bad-op".into());
+            self.marks.push(format!("q:{}:{op}:{}", self.cur_kind(), out.split_whitespace().nth(1).unwrap_or("?")));
+            return (line.to_string(), out);
+        }
+        let kind_before = self.cur_kind();
+        let live = self.w.coll.is_some();
+        let mut model_line = format!("{line}{}", line_witness(&op, line));
+        if op == "inst" {
+            // the chain's address allocation: the next contract of the case (two stubs exist) — known before the call
+            model_line.push_str(&format!(" self={COLL}"));
+        }
+        let r = catch(|| self.run_line(line));
+        let res = match r {
+            Ok(x) => {
+                self.log.push(line.to_string());
+                x
+            }
+            Err(_) => {
+                // contract panicked (`todo!()`, `unreachable!()`, `minus_seconds` underflow): a failed transaction on chain;
+                // cw-multi-test's state may be half-written, so the world is rebuilt from the log
+                self.panics += 1;
+                self.rebuild();
+                Some(("ok", false))
+            }
+        };
+        let Some((tag, ok)) = res else {
+            return (model_line, "bad-op".into());
+        };
+        self.cur = self.w.observe();
+        if live || op == "inst" {
+            let k = if op == "inst" { kv(line, "kind").unwrap_or("?").to_string() } else { kind_before };
+            let opn = if op == "raw" { format!("raw-{}", kv(line, "v").unwrap_or("?")) } else { op.clone() };
+            self.marks.push(format!("cov:{k}:{opn}:{}", if ok { "ok" } else { "err" }));
+        }
+        (model_line, format!("{} {}", if ok { tag } else { "err" }, self.obs()))
+    }
+}
+
+// ------------------------------------------------------------------------------------------------ generators
+
+struct G {
+    rng: Rng,
+    h: u64,
+    t: u64,
+}
+
+const VERSIONS: [&str; 12] = ["3.15.0", "3.1.0", "3.0.9", "3.0.5", "3.0.0", "2.9.9", "0.16.0", "0.15.9", "99.0.0", "3.1.1", "3.16.0", "3.16.1"];
+
+fn parse_exp(e: &str) -> Option<(char, u64)> {
+    if e == "n" || e == "-" {
+        None
+    } else {
+        Some((e.chars().next().unwrap(), e[1..].parse().unwrap()))
+    }
+}
+
+fn stepm(ses: &mut Session, sut: &mut S, line: &str) -> String {
+    let out = ses.step(sut, line);
+    for c in sut.marks.clone() {
+        ses.mark(c);
+    }
+    out
+}
+
+impl G {
+    fn any_sender(&mut self) -> u64 {
+        let all = [10, 11, 20, 21, 22, 23, 30, 40, 50, STUB_A, STUB_B];
+        *self.rng.pick(&all)
+    }
+    fn any_target(&mut self) -> u64 {
+        match self.rng.below(12) {
+            0 => *self.rng.pick(&INVALID),
+            1 => STUB_A,
+            2 => STUB_B,
+            3 => COLL,
+            4 => 10,
+            _ => *self.rng.pick(&HOLDERS),
+        }
+    }
+    fn funds(&mut self) -> String {
+        match self.rng.below(24) {
+            0 => "0:5".into(),
+            1 => "1:7".into(),
+            2 => "0:0".into(),
+            3 => "0:3,1:2".into(),
+            4 => "0:0,1:1".into(),
+            5 => "0:999999999999999999".into(),
+            _ => "-".into(),
+        }
+    }
+    fn exp(&mut self) -> String {
+        match self.rng.below(10) {
+            0 | 1 => "-".into(),
+            2 => "n".into(),
+            3 => format!("h{}", self.h),
+            4 => format!("h{}", self.h + 1),
+            5 => format!("h{}", self.h + self.rng.range(2, 6)),
+            6 => format!("t{}", self.t),
+            7 => format!("t{}", self.t + 1),
+            8 => format!("t{}", self.t + self.rng.range(2, 5) * 1_000_000_000),
+            _ => format!("h{}", self.h.saturating_sub(1)),
+        }
+    }
+    fn token_id(&mut self, o: &Obs, want_existing: bool) -> u64 {
+        if want_existing && !o.toks.is_empty() {
+            let i = self.rng.below(o.toks.len() as u64) as usize;
+            o.toks[i].id
+        } else {
+            let free: Vec<u64> = (1..=12).filter(|i| o.tok(*i).is_none()).collect();
+            if free.is_empty() || self.rng.chance(1, 10) {
+                self.rng.range(1, 14)
+            } else {
+                *self.rng.pick(&free)
+            }
+        }
+    }
+    /// somebody who may move token `t`: owner, an approved spender, an operator of the owner
+    fn mover(&mut self, o: &Obs, t: &Tok) -> u64 {
+        let mut c: Vec<u64> = vec![t.owner, t.owner];
+        c.extend(t.approvals.iter().map(|x| x.0));
+        c.extend(o.ops.iter().filter(|x| x.0 == t.owner).map(|x| x.1));
+        *self.rng.pick(&c)
+    }
+    fn share(&mut self, o: &Obs) -> u128 {
+        let p = 10u128.pow(16);
+        let old = o.roy.map(|r| r.1).unwrap_or(0);
+        let c = [old, old + 2 * p, old + 2 * p + 1, (old + 2 * p).saturating_sub(1), old.saturating_sub(p), 10 * p, 10 * p + 1, 10 * p - 1, 100 * p, 100 * p + 1, 0, old + p, self.rng.below(12) as u128 * p];
+        *self.rng.pick(&c)
+    }
+    fn desc(&mut self) -> String {
+        let len = match self.rng.below(10) {
+            0 => 512,
+            1 => 513,
+            2 => 511,
+            3 => 0,
+            4 => 5,
+            5 => 518,
+            _ => self.rng.range(6, 80),
+        };
+        let id = if len < 6 { 0 } else { self.rng.range(1, 50) };
+        format!("{id}:{len}")
+    }
+    fn url(&mut self) -> u64 {
+        if !self.rng.chance(1, 8) {
+            *self.rng.pick(&[0u64, 1, 5, 6, 7, 11, 12])
+        } else {
+            *self.rng.pick(&[2u64, 3, 4, 8, 9, 10])
+        }
+    }
+
+    fn inst_line(&mut self, kind: &str, fault: bool) -> String {
+        let mut s = STUB_A;
+        let mut funds = "-".to_string();
+        let mut minter = if self.rng.chance(1, 6) { *self.rng.pick(&[STUB_B, 20, 10]) } else { STUB_A };
+        let mut creator = 10;
+        let mut desc = format!("{}:{}", self.rng.range(1, 40), *self.rng.pick(&[512u64, 30, 6, 100]));
+        let mut image = *self.rng.pick(&[0u64, 1, 5, 6]);
+        let mut ext = if self.rng.chance(1, 2) { (*self.rng.pick(&[0u64, 7, 11])).to_string() } else { "-".into() };
+        let ec = *self.rng.pick(&["-", "0", "1"]);
+        let stt = if self.rng.chance(1, 2) { "-".to_string() } else { (self.t + self.rng.below(1000)).to_string() };
+        let p = 10u128.pow(16);
+        let mut roy = match self.rng.below(6) {
+            0 => "-".to_string(),
+            1 => format!("40:{}", 100 * p),
+            2 => "41:0".to_string(),
+            3 => format!("40:{}", 10 * p),
+            _ => format!("40:{}", self.rng.below(10) as u128 * p),
+        };
+        if fault {
+            match self.rng.below(9) {
+                0 => s = *self.rng.pick(&[10, 20, 50]),
+                1 => funds = "0:10".into(),
+                2 => minter = *self.rng.pick(&INVALID),
+                3 => creator = *self.rng.pick(&INVALID),
+                4 => desc = "4:513".into(),
+                5 => image = *self.rng.pick(&[2u64, 3, 4]),
+                6 => ext = (*self.rng.pick(&[2u64, 3, 4])).to_string(),
+                7 => roy = format!("40:{}", 100 * p + 1),
+                _ => roy = format!("{}:{}", self.rng.pick(&INVALID), 5 * p),
+            }
+        }
+        format!(
+            "inst kind={kind} s={s} funds={funds} nm={} sym={} minter={minter} creator={creator} desc={desc} image={image} ext={ext} ec={ec} stt={stt} roy={roy}",
+            self.rng.range(1, 9),
+            self.rng.range(1, 9)
+        )
+    }
+
+    /// maybe advance the clock; prefers instants the current state makes interesting (-1 / 0 / +1)
+    fn clock(&mut self, o: Option<&Obs>) -> Option<String> {
+        if !self.rng.chance(1, 3) {
+            return None;
+        }
+        let mut cands_t: Vec<u64> = vec![];
+        let mut cands_h: Vec<u64> = vec![];
+        if let Some(o) = o {
+            cands_t.push(o.rua + DAY_NS);
+            let mut exps: Vec<String> = o.toks.iter().flat_map(|t| t.approvals.iter().map(|x| x.1.clone())).collect();
+            exps.extend(o.ops.iter().map(|x| x.2.clone()));
+            if let Some(e) = &o.pexp {
+                exps.push(e.clone());
+            }
+            for e in exps {
+                match parse_exp(&e) {
+                    Some(('h', v)) => cands_h.push(v),
+                    Some(('t', v)) => cands_t.push(v),
+                    _ => {}
+                }
+            }
+        }
+        let r = self.rng.below(10);
+        if r < 4 && !cands_t.is_empty() {
+            let c = *self.rng.pick(&cands_t);
+            let d = *self.rng.pick(&[0i64, -1, 1]);
+            let nt = (c as i64 + d) as u64;
+            self.t = if nt >= self.t { nt } else { self.t + 1 };
+            self.h += 1;
+        } else if r < 6 && !cands_h.is_empty() {
+            let c = *self.rng.pick(&cands_h);
+            let d = *self.rng.pick(&[0i64, -1, 1]);
+            let nh = (c as i64 + d).max(0) as u64;
+            self.h = if nh >= self.h { nh } else { self.h + 1 };
+            self.t += 5_000_000_000;
+        } else if r < 8 {
+            self.h += 1;
+            self.t += self.rng.range(1, 6) * 1_000_000_000;
+        } else {
+            self.h += self.rng.range(1, 20000);
+            self.t += self.rng.range(1, 2 * DAY_NS);
+        }
+        Some(format!("block h={} t={}", self.h, self.t))
+    }
+
+    fn query_line(&mut self, o: &Obs) -> String {
+        let ie = self.rng.below(2);
+        let want = self.rng.chance(4, 5);
+        let id = self.token_id(o, want);
+        let lim = match self.rng.below(6) {
+            0 => "-".to_string(),
+            1 => "0".into(),
+            2 => "1".into(),
+            3 => "200".into(),
+            _ => self.rng.range(2, 12).to_string(),
+        };
+        let after_tok = if self.rng.chance(1, 2) { "-".to_string() } else { self.rng.range(0, 14).to_string() };
+        let owner = if self.rng.chance(1, 12) { *self.rng.pick(&INVALID) } else { *self.rng.pick(&[20u64, 21, 22, 23, 10, STUB_B]) };
+        match self.rng.below(11) {
+            0 => format!("q_owner_of id={id} ie={ie}"),
+            1 => format!("q_approval id={id} sp={} ie={ie}", self.rng.pick(&[20u64, 21, 22, 23, 30, STUB_B, 900])),
+            2 => format!("q_approvals id={id} ie={ie}"),
+            3 => {
+                let after = match self.rng.below(4) {
+                    0 => (*self.rng.pick(&[20u64, 21, 22, 30, STUB_B, 901])).to_string(),
+                    _ => "-".into(),
+                };
+                format!("q_operators owner={owner} ie={ie} after={after} limit={lim}")
+            }
+            4 => format!("q_nft_info id={id}"),
+            5 => format!("q_all_nft_info id={id} ie={ie}"),
+            6 => format!("q_tokens owner={owner} after={after_tok} limit={lim}"),
+            7 | 8 => format!("q_all_tokens after={after_tok} limit={lim}"),
+            9 => (*self.rng.pick(&["q_upd", "q_ownership"])).into(),
+            _ => {
+                let pay = *self.rng.pick(&[0u128, 1, 9, 10, 100, 1000, 999_999, 10u128.pow(20) + 7]);
+                let fee = *self.rng.pick(&[0u128, 1, 10, pay / 2, pay, pay + 1]);
+                let fin = match self.rng.below(3) {
+                    0 => "-".to_string(),
+                    1 => "0".into(),
+                    _ => (pay / 10).to_string(),
+                };
+                format!("q_payout pay={pay} fee={fee} fin={fin}")
+            }
+        }
+    }
+
+    /// one message line
+    fn op_line(&mut self, o: &Obs, unknown: &[String]) -> String {
+        let valid = self.rng.chance(7, 10);
+        let minter = o.owner;
+        let creator = o.creator;
+        let f = self.funds();
+        let upd = o.kind == "updatable";
+        if !unknown.is_empty() && self.rng.chance(1, 12) {
+            return format!("raw s={} funds=- v={}", self.any_sender(), self.rng.pick(unknown));
+        }
+        let pick = self.rng.below(100);
+        let existing = |g: &mut G| {
+            let want = valid || g.rng.chance(1, 2);
+            let id = g.token_id(o, want);
+            let s = match o.tok(id) {
+                Some(t) if valid => {
+                    let t = t.clone();
+                    g.mover(o, &t)
+                }
+                _ => g.any_sender(),
+            };
+            (id, s)
+        };
+        if pick < 16 {
+            let s = if valid && minter.is_some() { minter.unwrap() } else { self.any_sender() };
+            let dup = !valid && self.rng.chance(1, 2);
+            let id = self.token_id(o, dup);
+            let owner = if !valid && self.rng.chance(1, 4) { *self.rng.pick(&INVALID) } else { self.any_target() };
+            let uri = if self.rng.chance(1, 4) { "-".to_string() } else { self.rng.range(1, 30).to_string() };
+            let s2 = if dup && minter.is_some() { minter.unwrap() } else { s };
+            format!("mint s={s2} funds={f} id={id} owner={owner} uri={uri} ext={}", self.rng.below(4))
+        } else if pick < 25 {
+            let (id, s) = existing(self);
+            format!("transfer s={s} funds={f} to={} id={id}", self.any_target())
+        } else if pick < 31 {
+            let (id, s) = existing(self);
+            let to = if valid { *self.rng.pick(&[STUB_A, STUB_B]) } else { self.any_target() };
+            format!("send s={s} funds={f} to={to} id={id} payload={}", if self.rng.chance(1, 5) { 0 } else { 1 })
+        } else if pick < 40 {
+            let (id, mut s) = existing(self);
+            if valid {
+                if let Some(t) = o.tok(id) {
+                    if t.approvals.iter().any(|x| x.0 == s) && s != t.owner {
+                        s = t.owner;
+                    }
+                }
+            }
+            let sp = if self.rng.chance(1, 12) { *self.rng.pick(&INVALID) } else { *self.rng.pick(&[21u64, 22, 23, 30, STUB_B]) };
+            if self.rng.chance(2, 3) {
+                format!("approve s={s} funds={f} sp={sp} id={id} exp={}", self.exp())
+            } else {
+                format!("revoke s={s} funds={f} sp={sp} id={id}")
+            }
+        } else if pick < 47 {
+            let s = if valid { *self.rng.pick(&HOLDERS) } else { self.any_sender() };
+            let opr = if self.rng.chance(1, 12) { *self.rng.pick(&INVALID) } else { *self.rng.pick(&[20u64, 21, 22, 30, STUB_B]) };
+            if self.rng.chance(2, 3) {
+                format!("approve_all s={s} funds={f} op={opr} exp={}", self.exp())
+            } else {
+                format!("revoke_all s={s} funds={f} op={opr}")
+            }
+        } else if pick < 54 {
+            let (id, s) = existing(self);
+            format!("burn s={s} funds={f} id={id}")
+        } else if pick < 67 {
+            let s = if valid { creator } else { self.any_sender() };
+            let desc = if self.rng.chance(1, 2) { "-".to_string() } else { self.desc() };
+            let image = if self.rng.chance(1, 2) { "-".to_string() } else { self.url().to_string() };
+            let ext = if self.rng.chance(1, 2) { "-".to_string() } else { self.url().to_string() };
+            let ec = *self.rng.pick(&["-", "0", "1"]);
+            let roy = match self.rng.below(6) {
+                0 | 1 | 2 => "-".to_string(),
+                _ => {
+                    let payee = if self.rng.chance(1, 12) { *self.rng.pick(&INVALID) } else { *self.rng.pick(&PAYEES) };
+                    format!("{payee}:{}", self.share(o))
+                }
+            };
+            let cr = match self.rng.below(8) {
+                0 => "11".to_string(),
+                1 => "10".to_string(),
+                2 if !valid => self.rng.pick(&INVALID).to_string(),
+                _ => "-".to_string(),
+            };
+            format!("uci s={s} funds={f} desc={desc} image={image} ext={ext} ec={ec} roy={roy} creator={cr}")
+        } else if pick < 71 {
+            let s = if valid && minter.is_some() { minter.unwrap() } else { self.any_sender() };
+            let t = if self.rng.chance(1, 4) { "-".to_string() } else { (self.t + self.rng.below(100000)).to_string() };
+            format!("ustt s={s} funds={f} t={t}")
+        } else if pick < 75 {
+            let s = if valid && (o.fz || self.rng.chance(1, 3)) { creator } else { self.any_sender() };
+            format!("freeze s={s} funds={f}")
+        } else if pick < 83 {
+            let r = if o.pending.is_some() && self.rng.chance(1, 2) { 3 } else { self.rng.below(6) };
+            match r {
+                0 | 1 | 2 => {
+                    let s = if valid && minter.is_some() { minter.unwrap() } else { self.any_sender() };
+                    let to = if self.rng.chance(1, 10) { *self.rng.pick(&INVALID) } else { *self.rng.pick(&[STUB_A, STUB_B, 20, 10]) };
+                    format!("own_transfer s={s} funds={f} to={to} exp={}", self.exp())
+                }
+                3 | 4 => {
+                    let s = if valid && o.pending.is_some() { o.pending.unwrap() } else { self.any_sender() };
+                    format!("own_accept s={s} funds={f}")
+                }
+                _ => {
+                    let s = if valid && minter.is_some() && self.rng.chance(1, 4) { minter.unwrap() } else { self.any_sender() };
+                    format!("own_renounce s={s} funds={f}")
+                }
+            }
+        } else if pick < 93 {
+            if !upd && self.rng.chance(2, 3) {
+                let s = minter.unwrap_or(STUB_A);
+                let id = self.token_id(o, false);
+                return format!("mint s={s} funds=- id={id} owner={} uri={} ext=1", self.rng.pick(&HOLDERS), self.rng.range(1, 30));
+            }
+            match self.rng.below(10) {
+                0 => {
+                    let s = if valid && (o.fm || self.rng.chance(1, 3)) { creator } else { self.any_sender() };
+                    format!("freeze_meta s={s} funds={}", if valid { "-".to_string() } else { f.clone() })
+                }
+                1 | 2 => {
+                    let s = if valid { creator } else { self.any_sender() };
+                    let ff = match self.rng.below(8) {
+                        0 => format!("0:{}", FEE - 1),
+                        1 => format!("0:{}", FEE + 1),
+                        2 => format!("1:{FEE}"),
+                        3 => "-".to_string(),
+                        4 => format!("0:{FEE},1:5"),
+                        _ => format!("0:{FEE}"),
+                    };
+                    format!("enable s={s} funds={ff}")
+                }
+                _ => {
+                    let s = if valid { creator } else { self.any_sender() };
+                    let want = valid || self.rng.chance(1, 2);
+                    let id = self.token_id(o, want);
+                    let uri = if self.rng.chance(1, 5) { "-".to_string() } else { self.rng.range(31, 60).to_string() };
+                    format!("utm s={s} funds={} id={id} uri={uri}", if valid { "-".to_string() } else { f.clone() })
+                }
+            }
+        } else if pick < 94 {
+            format!("extension s={} funds={f}", self.any_sender())
+        } else if pick < 96 {
+            format!("fund a={} d={} amt={}", self.any_sender(), self.rng.below(2), *self.rng.pick(&[1u128, 5, 100, FEE, 3 * FEE]))
+        } else {
+            match self.rng.below(7) {
+                0 | 1 => format!("setver v={}", self.rng.pick(&VERSIONS)),
+                2 => format!("setlegacy a={}", self.rng.pick(&["-", "20", "1001", "1000", "901"])),
+                3 | 4 => "migrate_upd".into(),
+                _ => "migrate_self".into(),
+            }
+        }
+    }
+}
+
+fn header(kind: &str, h: u64, t: u64, tag: &str) -> String {
+    format!("case accts={ACCTS} h={h} t={t} kind={kind} {tag}")
+}
+fn prelude(ses: &mut Session, sut: &mut S) {
+    for l in [
+        format!("fund a=10 d=0 amt={}", 20 * FEE),
+        "fund a=10 d=1 amt=1000".to_string(),
+        "fund a=11 d=0 amt=1000".to_string(),
+        "fund a=20 d=0 amt=500".to_string(),
+        "fund a=20 d=1 amt=500".to_string(),
+        "fund a=21 d=0 amt=50".to_string(),
+        "fund a=30 d=0 amt=7".to_string(),
+        format!("fund a={STUB_A} d=0 amt=40"),
+        format!("fund a={STUB_A} d=1 amt=9"),
+    ] {
+        stepm(ses, sut, &l);
+    }
+}
+
+fn random_case(ses: &mut Session, sut: &mut S, g: &mut G, kind: &str, n_ops: u64, tag: &str) {
+    g.h = 100 + g.rng.below(50);
+    g.t = if g.rng.chance(1, 12) { DAY_NS - g.rng.below(3) } else { T0 + g.rng.below(1_000_000_000) };
+    ses.begin_case(sut, &header(kind, g.h, g.t, tag));
+    prelude(ses, sut);
+    if g.rng.chance(1, 6) {
+        stepm(ses, sut, "freeze s=10 funds=-");
+        stepm(ses, sut, "q_all_tokens after=- limit=-");
+    }
+    let mut tries = 0;
+    loop {
+        let fault = tries == 0 && g.rng.chance(1, 3);
+        let l = g.inst_line(kind, fault);
+        let out = stepm(ses, sut, &l);
+        tries += 1;
+        if out.starts_with("ok") {
+            break;
+        }
+        assert!(tries < 8, "cannot instantiate: {l} -> {out}");
+    }
+    let unknown = sut.sf.unknown.get(kind).cloned().unwrap_or_default();
+    let early_freeze = g.rng.chance(1, 4);
+    let migrate_early = kind == "base" && g.rng.chance(1, 4);
+    let upgrade_mid = (kind == "updatable" || kind == "onchain") && g.rng.chance(1, 3);
+    let old_release = kind == "base" && g.rng.chance(1, 6);
+    let legacy = g.rng.chance(1, 8);
+    for i in 0..n_ops {
+        let o = sut.cur.clone();
+        if let Some(b) = g.clock(o.as_ref()) {
+            stepm(ses, sut, &b);
+        }
+        let Some(o) = sut.cur.clone() else { break };
+        if old_release && i == 1 {
+            stepm(ses, sut, &format!("setver v={}", g.rng.pick(&["3.0.5", "3.1.0", "3.15.0", "2.9.9"])));
+            continue;
+        }
+        if legacy && i == 2 {
+            stepm(ses, sut, &format!("setlegacy a={}", g.rng.pick(&["20", "1001"])));
+            continue;
+        }
+        if migrate_early && i == 3 {
+            stepm(ses, sut, "migrate_upd");
+            continue;
+        }
+        if early_freeze && i == n_ops / 4 {
+            stepm(ses, sut, &format!("freeze s={} funds=-", o.creator));
+            continue;
+        }
+        if upgrade_mid && i == n_ops / 2 {
+            stepm(ses, sut, &format!("setver v={}", g.rng.pick(&["3.15.0", "3.1.0", "3.0.5", "3.0.0", "2.9.9"])));
+            stepm(ses, sut, "migrate_self");
+            continue;
+        }
+        if g.rng.chance(1, 7) {
+            let q = g.query_line(&o);
+            stepm(ses, sut, &q);
+            continue;
+        }
+        let line = g.op_line(&o, &unknown);
+        let out = stepm(ses, sut, &line);
+        // same-block repetition of the call just made
+        if g.rng.chance(1, 15) {
+            stepm(ses, sut, &line);
+        }
+        let op = line.split_whitespace().next().unwrap();
+        let s = kv_u64(&line, "s");
+        let who = if s.is_some() && s == o.owner {
+            "minter"
+        } else if s == Some(o.creator) {
+            "creator"
+        } else if s.is_some() && s == o.pending {
+            "pending"
+        } else {
+            "other"
+        };
+        ses.mark(format!("{}:{op}:{who}:fz{}:fm{}:funds{}:{}", o.kind, o.fz as u8, o.fm as u8, (kv(&line, "funds").unwrap_or("-") != "-") as u8, &out[..2]));
+    }
+    ses.end_case();
+}
+
+/// deterministic tour of one collection kind: every message kind, every query, every migration branch, rejected twins.
+/// (The coverage floor does not depend on the seed.)
+fn tour(ses: &mut Session, sut: &mut S, kind: &str) {
+    let (h, t0) = (100u64, T0);
+    let p = 10u128.pow(16);
+    let a = STUB_A;
+    let b = STUB_B;
+    let inst = |s: u64, funds: &str, extra: &str| {
+        format!("inst kind={kind} s={s} funds={funds} nm=1 sym=2 minter={a} creator=10 desc=1:512 image=0 ext=7 ec=0 stt=- roy=40:{}{extra}", 5 * p)
+    };
+    let qs: Vec<String> = vec![
+        "q_all_tokens after=- limit=-".into(),
+        "q_all_tokens after=1 limit=2".into(),
+        "q_all_tokens after=- limit=0".into(),
+        "q_tokens owner=20 after=- limit=-".into(),
+        "q_tokens owner=21 after=10 limit=5".into(),
+        "q_tokens owner=900 after=- limit=-".into(),
+        "q_owner_of id=1 ie=0".into(),
+        "q_owner_of id=1 ie=1".into(),
+        "q_owner_of id=77 ie=1".into(),
+        "q_nft_info id=1".into(),
+        "q_all_nft_info id=1 ie=1".into(),
+        "q_approvals id=1 ie=0".into(),
+        "q_approvals id=1 ie=1".into(),
+        "q_approval id=1 sp=20 ie=0".into(),
+        "q_approval id=1 sp=22 ie=0".into(),
+        "q_approval id=1 sp=23 ie=1".into(),
+        "q_operators owner=20 ie=0 after=- limit=-".into(),
+        "q_operators owner=20 ie=1 after=- limit=1".into(),
+        "q_operators owner=20 ie=1 after=21 limit=-".into(),
+        "q_operators owner=20 ie=1 after=901 limit=-".into(),
+        "q_upd".into(),
+        "q_ownership".into(),
+        "q_payout pay=1000 fee=10 fin=5".into(),
+        "q_payout pay=1000 fee=990 fin=-".into(),
+        "q_payout pay=10 fee=11 fin=-".into(),
+    ];
+    let mut l: Vec<String> = vec![];
+    l.push("freeze s=10 funds=-".into());
+    l.push("q_all_tokens after=- limit=-".into());
+    l.push("setver v=3.0.5".into());
+    l.push(inst(10, "-", ""));
+    l.push(inst(a, "0:1", ""));
+    l.push(format!("inst kind={kind} s={a} funds=- nm=1 sym=2 minter=901 creator=10 desc=1:512 image=0 ext=7 ec=0 stt=- roy=-"));
+    l.push(inst(a, "-", ""));
+    l.push(inst(a, "-", ""));
+    for (id, owner, uri, ext) in [(1, 20, "1", 3), (2, 20, "-", 0), (10, 21, "4", 1), (3, 21, "5", 0), (4, 22, "6", 2)] {
+        l.push(format!("mint s={a} funds=- id={id} owner={owner} uri={uri} ext={ext}"));
+    }
+    l.push(format!("mint s={a} funds=- id=1 owner=21 uri=2 ext=0"));
+    l.push("mint s=30 funds=- id=5 owner=21 uri=2 ext=0".into());
+    l.push(format!("mint s={a} funds=0:3 id=5 owner=23 uri=2 ext=0"));
+    l.extend(qs.iter().cloned());
+    l.push(format!("approve s=20 funds=- sp=22 id=1 exp=h{}", h + 2));
+    l.push(format!("approve s=20 funds=- sp=23 id=1 exp=t{}", t0 + 5));
+    l.push("approve s=30 funds=- sp=30 id=1 exp=-".into());
+    l.push(format!("approve_all s=20 funds=- op=30 exp=t{}", t0 + 10));
+    l.push("approve_all s=20 funds=0:1 op=21 exp=-".into());
+    l.push(format!("approve_all s=20 funds=- op=22 exp=h{h}"));
+    l.extend(qs.iter().cloned());
+    l.push(format!("block h={h} t={}", t0 + 5));
+    l.extend(qs.iter().cloned());
+    l.push("revoke s=20 funds=- sp=23 id=1".into());
+    l.push("transfer s=23 funds=- to=21 id=1".into());
+    l.push("transfer s=22 funds=- to=900 id=1".into());
+    l.push("transfer s=22 funds=- to=21 id=1".into());
+    l.push(format!("send s=21 funds=- to={b} id=1 payload=0"));
+    l.push("send s=21 funds=- to=22 id=1 payload=1".into());
+    l.push(format!("send s=21 funds=- to={b} id=1 payload=1"));
+    l.push(format!("transfer s={b} funds=- to=20 id=1"));
+    l.push("revoke_all s=20 funds=- op=30".into());
+    l.push("burn s=21 funds=- id=2".into());
+    l.push("burn s=20 funds=- id=2".into());
+    l.push("uci s=10 funds=- desc=2:40 image=1 ext=11 ec=1 roy=- creator=-".into());
+    l.push("uci s=10 funds=- desc=2:513 image=- ext=- ec=- roy=- creator=-".into());
+    l.push("uci s=10 funds=- desc=- image=2 ext=- ec=- roy=- creator=-".into());
+    l.push("uci s=30 funds=- desc=3:10 image=- ext=- ec=- roy=- creator=30".into());
+    l.push(format!("uci s=10 funds=- desc=- image=- ext=- ec=- roy=41:{} creator=-", 6 * p));
+    l.push(format!("block h={} t={}", h + 1, t0 + DAY_NS - 1));
+    l.push(format!("uci s=10 funds=- desc=- image=- ext=- ec=- roy=41:{} creator=-", 6 * p));
+    l.push(format!("block h={} t={}", h + 2, t0 + DAY_NS));
+    l.push(format!("uci s=10 funds=- desc=- image=- ext=- ec=- roy=41:{} creator=-", 7 * p + 1));
+    l.push(format!("uci s=10 funds=- desc=- image=- ext=- ec=- roy=901:{} creator=-", 6 * p));
+    l.push(format!("uci s=10 funds=0:5 desc=- image=- ext=- ec=- roy=41:{} creator=11", 7 * p));
+    l.push(format!("uci s=11 funds=- desc=- image=- ext=- ec=- roy=41:{} creator=-", 6 * p));
+    l.push("q_payout pay=1000 fee=10 fin=5".into());
+    l.push("q_payout pay=1000 fee=931 fin=-".into());
+    l.push(format!("ustt s={a} funds=- t={}", t0 + 77));
+    l.push("ustt s=11 funds=- t=78".into());
+    l.push(format!("ustt s={a} funds=- t=-"));
+    l.push(format!("own_transfer s={a} funds=- to=901 exp=-"));
+    l.push(format!("own_transfer s={a} funds=- to={b} exp=h{}", h + 3));
+    l.push(format!("own_accept s={a} funds=-"));
+    l.push(format!("own_accept s={b} funds=-"));
+    l.push(format!("mint s={a} funds=- id=6 owner=21 uri=2 ext=0"));
+    l.push(format!("mint s={b} funds=- id=6 owner=21 uri=2 ext=0"));
+    l.push(format!("own_transfer s={b} funds=- to={a} exp=h{}", h + 2));
+    l.push(format!("own_accept s={a} funds=-"));
+    l.push(format!("own_transfer s={b} funds=- to={a} exp=-"));
+    l.push(format!("own_accept s={a} funds=-"));
+    l.push("utm s=11 funds=- id=1 uri=31".into());
+    l.push("utm s=11 funds=- id=99 uri=31".into());
+    l.push("utm s=20 funds=- id=1 uri=32".into());
+    l.push("utm s=11 funds=0:1 id=1 uri=33".into());
+    l.push(format!("enable s=11 funds=0:{FEE}"));
+    l.push("extension s=20 funds=-".into());
+    for v in sut.sf.unknown.get(kind).cloned().unwrap_or_default() {
+        l.push(format!("raw s=20 funds=- v={v}"));
+        l.push(format!("raw s=11 funds=- v={v}"));
+    }
+    // migrations: same version, older releases around the inline thresholds, legacy ownership upgrade
+    l.push("migrate_self".into());
+    l.push("migrate_upd".into());
+    l.push("setver v=3.15.0".into());
+    l.push("migrate_self".into());
+    l.push("setver v=3.16.1".into());
+    l.push("migrate_self".into());
+    l.push("migrate_upd".into());
+    l.push("setver v=0.15.9".into());
+    l.push("migrate_self".into());
+    l.push("migrate_upd".into());
+    l.push("setver v=3.0.9".into());
+    l.push("migrate_upd".into());
+    l.push(format!("uci s=11 funds=- desc=- image=- ext=- ec=- roy=41:{} creator=-", 8 * p));
+    l.push("setver v=2.9.9".into());
+    l.push("migrate_upd".into());
+    l.push("migrate_self".into());
+    l.push("setlegacy a=901".into());
+    l.push("migrate_upd".into());
+    l.push("migrate_self".into());
+    l.push(format!("own_transfer s={a} funds=- to=22 exp=-"));
+    l.push("setlegacy a=20".into());
+    l.push("migrate_upd".into());
+    l.push("migrate_self".into());
+    l.push("setlegacy a=-".into());
+    l.push("mint s=20 funds=- id=7 owner=23 uri=- ext=0".into());
+    l.push(format!("mint s={a} funds=- id=7 owner=23 uri=- ext=0"));
+    l.push("q_upd".into());
+    // sg721-updatable messages (accepted after a base -> updatable migration as well)
+    l.push("utm s=11 funds=- id=1 uri=31".into());
+    l.push(format!("enable s=20 funds=0:{FEE}"));
+    l.push(format!("enable s=11 funds=0:{}", FEE - 1));
+    l.push(format!("enable s=11 funds=1:{FEE}"));
+    l.push("enable s=11 funds=-".into());
+    l.push(format!("enable s=11 funds=0:{FEE},1:1"));
+    l.push(format!("fund a=11 d=0 amt={}", 3 * FEE));
+    l.push(format!("enable s=11 funds=0:{}", FEE + 1));
+    l.push(format!("enable s=11 funds=0:{FEE}"));
+    l.push("utm s=11 funds=- id=1 uri=31".into());
+    l.push("utm s=11 funds=- id=1 uri=-".into());
+    l.push("freeze_meta s=20 funds=-".into());
+    l.push("freeze_meta s=11 funds=0:1".into());
+    l.push("freeze_meta s=11 funds=-".into());
+    l.push("utm s=11 funds=- id=1 uri=34".into());
+    l.push("q_upd".into());
+    l.push("freeze s=10 funds=-".into());
+    l.push("freeze s=11 funds=-".into());
+    l.push("freeze s=11 funds=-".into());
+    l.push("uci s=11 funds=- desc=5:10 image=- ext=- ec=- roy=- creator=-".into());
+    l.push("own_renounce s=30 funds=-".into());
+    l.push("own_renounce s=20 funds=-".into());
+    l.push(format!("own_renounce s={a} funds=-"));
+    l.push("mint s=20 funds=- id=8 owner=23 uri=- ext=0".into());
+    l.push("burn s=23 funds=- id=7".into());
+    l.extend(qs.iter().cloned());
+    ses.begin_case(sut, &header(kind, h, t0, "tour"));
+    prelude(ses, sut);
+    for x in &l {
+        stepm(ses, sut, x);
+    }
+    ses.end_case();
+
+    // older release below 3.1.0 in a block before 24 h: `minus_seconds` underflow, then exactly 24 h
+    let l2: Vec<String> = vec![
+        inst(a, "-", ""),
+        format!("mint s={a} funds=- id=1 owner=20 uri=1 ext=0"),
+        "setver v=3.0.5".into(),
+        "migrate_upd".into(),
+        "migrate_self".into(),
+        format!("block h=6 t={DAY_NS}"),
+        "migrate_upd".into(),
+        "migrate_self".into(),
+        "migrate_self".into(),
+        format!("uci s=10 funds=- desc=- image=- ext=- ec=- roy=41:{} creator=-", 6 * p),
+    ];
+    ses.begin_case(sut, &header(kind, 5, DAY_NS - 1, "tour-early-clock"));
+    for x in &l2 {
+        stepm(ses, sut, x);
+    }
+    ses.end_case();
+
+    // more tokens than a page; decimal-string order of the ids
+    let mut l3: Vec<String> = vec![inst(a, "-", "")];
+    for i in 1..=103u64 {
+        l3.push(format!("mint s={a} funds=- id={i} owner={} uri=- ext=0", 20 + i % 4));
+    }
+    for q in ["q_all_tokens after=- limit=-", "q_all_tokens after=- limit=100", "q_all_tokens after=- limit=200", "q_all_tokens after=19 limit=30", "q_all_tokens after=55 limit=100", "q_tokens owner=21 after=- limit=100", "q_tokens owner=21 after=5 limit=7"] {
+        l3.push(q.into());
+    }
+    ses.begin_case(sut, &header(kind, h, t0, "tour-paging"));
+    for x in &l3 {
+        stepm(ses, sut, x);
+    }
+    ses.end_case();
+    ses.mark(format!("tour:{kind}"));
+}
+
+fn main() {
+    let mut ses = Session::new("COMPCOLL");
+    let sf = Surface::load();
+    let mut sut = S::new(sf.clone());
+    if ses.maybe_replay(&mut sut) {
+        ses.finish(&mut sut);
+    }
+    let mut g = G { rng: ses.rng.fork(), h: 100, t: T0 };
+    for kind in KINDS {
+        tour(&mut ses, &mut sut, kind);
+    }
+    let per_kind = ses.scale(90, 1000);
+    for kind in KINDS {
+        for i in 0..per_kind {
+            let n_ops = 30 + g.rng.below(60);
+            random_case(&mut ses, &mut sut, &mut g, kind, n_ops, &format!("random i={i}"));
+        }
+    }
+    // ---- coverage floor: every collection kind x every message kind of ITS schema accepted at least once (the variants are
+    // enumerated from the crates' JSON schemas at run time), every message kind it lacks rejected, every query answered
+    for kind in KINDS {
+        ses.require(format!("tour:{kind}"));
+        ses.require(format!("cov:{kind}:inst:ok"));
+        ses.require(format!("cov:{kind}:inst:err"));
+        for op in ALL_OPS {
+            let has = sf.has[kind].contains(op);
+            // `Extension` aborts (`todo!()` / `unreachable!()`) wherever it exists
+            let want = if has && op != "extension" { "ok" } else { "err" };
+            ses.require(format!("cov:{kind}:{op}:{want}"));
+            if has {
+                ses.require(format!("cov:{kind}:{op}:err"));
+            }
+        }
+        for u in &sf.unknown[kind] {
+            ses.require(format!("cov:{kind}:raw-{u}:"));
+        }
+        for q in ["q_owner_of", "q_approval", "q_approvals", "q_operators", "q_nft_info", "q_all_nft_info", "q_tokens", "q_all_tokens", "q_payout"] {
+            ses.require(format!("q:{kind}:{q}:ok"));
+            if q != "q_all_tokens" {
+                ses.require(format!("q:{kind}:{q}:err"));
+            }
+        }
+        ses.require(format!("q:{kind}:q_upd:{}", if kind == "updatable" { "ok" } else { "err" }));
+        ses.require(format!("q:{kind}:q_ownership:{}", if sf.has[kind].contains("own_transfer") || kind == "nt" { "ok" } else { "err" }));
+        ses.require(format!("cov:{kind}:migrate_self:err"));
+        ses.require(format!("cov:{kind}:migrate_upd:err"));
+        ses.require(format!("cov:{kind}:setver:ok"));
+        ses.require(format!("cov:{kind}:setlegacy:ok"));
+    }
+    for k in ["base", "updatable"] {
+        ses.require(format!("cov:{k}:migrate_upd:ok"));
+    }
+    for k in ["updatable", "onchain"] {
+        ses.require(format!("cov:{k}:migrate_self:ok"));
+    }
+    ses.note(format!(
+        "4 collections x (3 deterministic tours + {per_kind} random histories of 30-90 lines): every ExecuteMsg variant of each schema, 10 query kinds, migrations from older stored versions incl. the legacy-minter ownership upgrade, funds on every message kind; contract panics caught: {}",
+        sut.panics
+    ));
+    ses.finish(&mut sut);
+}
